@@ -2068,8 +2068,9 @@ class DynamicSpaceImpl(BaseSpaceImpl):
 
     @property
     def allow_none(self):
-        # Always that of the space this one is a copy of
-        return self._dynbase.allow_none
+        # Always what holds in the space this one is a copy of,
+        # whose parents may not be the parents of this one
+        return self._dynbase.get_property("allow_none")
 
     @allow_none.setter
     def allow_none(self, value):
